@@ -450,6 +450,7 @@ func (prop) Generate(rng *core.Rand, tier string, emit func(string)) {
 	g.strOps(n*2, emit)
 	g.ggOps(n/10+20, emit)
 	g.cliOps(n/25+20, emit)
+	g.pullOps(n/25+20, emit)
 
 	for i := 0; i < n; i++ {
 		line := g.history(maxSteps)
